@@ -1851,7 +1851,7 @@ done:
 int
 evbuffer_prepend(struct evbuffer *buf, const void *data, size_t datlen)
 {
-	struct evbuffer_chain *chain, *tmp;
+	struct evbuffer_chain *chain, *tmp = NULL;
 	int result = -1;
 
 	EVBUFFER_LOCK(buf);
@@ -1896,7 +1896,13 @@ evbuffer_prepend(struct evbuffer *buf, const void *data, size_t datlen)
 			buf->n_add_for_cb += datlen;
 			goto out;
 		} else if (chain->misalign) {
-			/* we can only fit some of the data. */
+			/* we can only fit some of the data.  Allocate the chain
+			 * for the rest first, so that a failure leaves the
+			 * buffer unchanged. */
+			tmp = evbuffer_chain_new_membuf(
+			    datlen - (size_t)chain->misalign);
+			if (tmp == NULL)
+				goto done;
 			memcpy(chain->buffer,
 			    (char*)data + datlen - chain->misalign,
 			    (size_t)chain->misalign);
@@ -1909,7 +1915,7 @@ evbuffer_prepend(struct evbuffer *buf, const void *data, size_t datlen)
 	}
 
 	/* we need to add another chain */
-	if ((tmp = evbuffer_chain_new_membuf(datlen)) == NULL)
+	if (tmp == NULL && (tmp = evbuffer_chain_new_membuf(datlen)) == NULL)
 		goto done;
 	buf->first = tmp;
 	if (buf->last_with_datap == &buf->first && chain->off)
